@@ -64,6 +64,13 @@ class Report:
         self.machinery_errors = []
         self.tlc_runs = []
 
+    def phase(self, name):
+        """Record wall time per phase of the check (written to the evidence)."""
+        now = time.time()
+        if getattr(self, "_ph", None):
+            self.extra.setdefault("phase_wall_s", {})[self._ph[0]] = round(now - self._ph[1], 1)
+        self._ph = (name, now) if name else None
+
     # --- accumulation -------------------------------------------------------------------
     def add_tlc(self, res, label=""):
         self.states += int(res.get("distinct") or 0)
@@ -128,6 +135,7 @@ class Report:
 
     # --- output -------------------------------------------------------------------------
     def finish(self):
+        self.phase(None)
         wall = time.time() - self.t0
         cov = {
             "states": max(self.states, 0),
